@@ -363,3 +363,136 @@ def seq_equality_rule(rep, fn):
         rep.violation('N5b', vkey('N5b', fn.name, 'both-exhausted', ''), fn.loc(fn.span),
                       '%s can report two names as equal when one is only a prefix of the other: %s' % (
                           fn.name, '; '.join(sorted(set(problems))) or 'no result that can be true was found'))
+
+
+# ---------------------------------------------------------------------------------------------
+# N8  lengths are compared only with lengths of the same unit (UTF-8 bytes / UTF-16 units / chars)
+from model import op_place, op_const  # noqa: E402
+
+def _len_unit(fn, t):
+    """unit of the count a call returns, or None"""
+    callee = t.get('callee') or ''
+    if callee in ('str::len', 'alloc::string::String::len'):
+        return 'utf8-bytes'
+    if callee.endswith('::LfnBuffer::len'):
+        return 'utf16-units'
+    if callee in ('[T]::len', 'core::slice::<impl [T]>::len', 'alloc::vec::Vec::len') and t['args']:
+        p = op_place(t['args'][0])
+        ty = fn.local_ty(p['l']) if p is not None and not p['p'] else None
+        for _ in range(3):
+            if ty is not None and ty.get('k') in ('ref', 'ptr'):
+                ty = fn.types[ty['to']]
+        el = None
+        if ty is not None and ty.get('k') in ('slice', 'array'):
+            el = fn.types[ty['of']]
+        elif ty is not None and ty.get('k') == 'adt' and ty.get('path', '').endswith('::Vec') and ty.get('args'):
+            el = fn.types[ty['args'][0]]
+        if el is not None and el.get('k') == 'int' and el.get('bits') == 16 and not el.get('signed'):
+            return 'utf16-units'
+        return None
+    if callee == 'core::iter::traits::iterator::Iterator::count' and t['args']:
+        p = op_place(t['args'][0])
+        ty = fn.local_ty(p['l']) if p is not None and not p['p'] else None
+        path = (ty or {}).get('path', '')
+        if path.endswith('::Chars'):
+            return 'chars'
+        if path.endswith('::EncodeUtf16'):
+            return 'utf16-units'
+    return None
+
+
+def length_units(ctx, rep):
+    """N8: a name exists in three encodings (UTF-8 in the API, UTF-16 on disk, chars in between); a count in one unit
+    compared with (or added to / subtracted from) a count in another is meaningless for non-ASCII names.  Tags flow
+    through copies, casts and +/- constants only, so a tagged value *is* such a count."""
+    facts = ctx.facts
+    n = 0
+    for fn in facts.fns.values():
+        is_control = fn.crate == 'vf_witness' and '::controls::control_n8' in fn.name
+        if fn.crate != 'fatfs' and not is_control:
+            continue
+        tag = {}
+        conflict = set()
+
+        def settag(l, u):
+            if u is None or l in conflict:
+                return False
+            if l in tag and tag[l] != u:
+                conflict.add(l)
+                tag.pop(l)
+                return True
+            if l not in tag:
+                tag[l] = u
+                return True
+            return False
+
+        for bi in fn.reachable():
+            t = fn.blocks[bi]['term']
+            if t['k'] == 'call' and not t['dest']['p']:
+                settag(t['dest']['l'], _len_unit(fn, t))
+        if not tag:
+            continue
+        changed = True
+        rounds = 0
+        while changed and rounds < 20:
+            changed = False
+            rounds += 1
+            for bi in fn.reachable():
+                for s in fn.blocks[bi]['stmts']:
+                    if s['k'] != 'assign' or s['lhs']['p']:
+                        continue
+                    rv = s['rv']
+                    u = None
+                    if rv['k'] in ('use', 'cast'):
+                        p = op_place(rv['a'])
+                        if p is not None:
+                            u = tag.get(p['l']) if not p['p'] or p['p'] == [{'f': 0, 'n': '0'}] else None
+                            if p['p'] and not u:
+                                # `.0` of a checked-arithmetic pair
+                                if len(p['p']) == 1 and 'f' in p['p'][0] and p['p'][0].get('f') == 0:
+                                    u = tag.get(p['l'])
+                    elif rv['k'] == 'binop' and rv['op'].replace('WithOverflow', '') in ('Add', 'Sub'):
+                        pa, pb = op_place(rv['a']), op_place(rv['b'])
+                        ca, cb = op_const(rv['a']), op_const(rv['b'])
+                        if pa is not None and not pa['p'] and cb is not None:
+                            u = tag.get(pa['l'])
+                        elif pb is not None and not pb['p'] and ca is not None and rv['op'].startswith('Add'):
+                            u = tag.get(pb['l'])
+                    if settag(s['lhs']['l'], u):
+                        changed = True
+        for bi in fn.reachable():
+            for s in fn.blocks[bi]['stmts']:
+                if s['k'] != 'assign' or s['rv']['k'] != 'binop':
+                    continue
+                op = s['rv']['op'].replace('WithOverflow', '')
+                if op not in ('Eq', 'Ne', 'Lt', 'Le', 'Gt', 'Ge', 'Add', 'Sub'):
+                    continue
+                pa, pb = op_place(s['rv']['a']), op_place(s['rv']['b'])
+                if pa is None or pb is None or pa['p'] or pb['p']:
+                    continue
+                ua, ub = tag.get(pa['l']), tag.get(pb['l'])
+                if ua is None or ub is None:
+                    continue
+                ok = ua == ub
+                if is_control:
+                    if not ok:
+                        rep.control('N8')
+                    continue
+                n += 1
+                rep.oblige('N8', '%s|bb%d' % (fn.name, bi), ok=ok, nontrivial=True,
+                           sample={'fn': fn.name, 'at': fn.loc(s['span']), 'units': [ua, ub]})
+                if not ok:
+                    rep.violation('N8', vkey('N8', fn.name, op, s['span']['snip']), fn.loc(s['span']),
+                                  '%s combines a length in %s with a length in %s (`%s`): the two only agree for ASCII names, so '
+                                  'a name with a non-ASCII character is treated differently from how it was stored' %
+                                  (fn.name, ua, ub, s['span']['snip'][:80]))
+    rep.counts['N8.pairs'] = n
+    rep.oblige('N8.scan', 'fatfs', ok=True)
+
+
+_run_n = run
+
+
+def run(ctx, rep):
+    _run_n(ctx, rep)
+    length_units(ctx, rep)
